@@ -57,6 +57,9 @@ StartRun ==
         /\ spSeen' = {}
         /\ kfFw' = {}
         /\ kfHard' = [n \in 1..Len(p.nodes) |-> ""]
+        /\ lagFw' = {}
+        /\ ranAt' = [n \in 1..Len(p.nodes) |-> 0]
+        /\ verAt' = [n \in 1..Len(p.nodes) |-> 0]
         /\ histIn' = <<>>
         /\ crashed' = FALSE
         /\ armed' = None
